@@ -21,7 +21,7 @@ func init() {
 			"a macro reached through import/from-import calls sibling macros only through an import written inside its own body",
 			"the reference interpreter (internal/mt) is trusted to transcribe the statement",
 		},
-		quick: 7900 + 40000, thorough: 7900 + 200000, minQuick: 6000, minThorough: 40000,
+		quick: 7900 + 40000, thorough: 7900 + 1000000, minQuick: 6000, minThorough: 40000,
 	}})
 }
 
